@@ -64,7 +64,7 @@ TECHNIQUE = ("Lean 4 proofs: checker (validOrder_iff) applied to every real outp
 ASSUMPTIONS = ["keys are interned to Nat; the dependencies handed to the model are the ones the real code reads (DependenciesMapping), external keys added as dependency-free data nodes as order() does",
                "dependents = reverse_dict(dependencies) (built that way by order(); the model's aliveDependents is its definition)",
                "the heuristic core emits every remaining key once, dependencies first, and terminates (CoreOK): checked on every real output, not proved"]
-CASE_TIMEOUT_S = 20
+CASE_TIMEOUT_S = 90     # generous: a large collection graph under a loaded machine was reported as a hang once
 
 
 def _f(*a):
